@@ -10,14 +10,17 @@
   min = 0: i8…i64, u8…u64 and any other width), every interval with optional endpoints of that
   type, and every pair of members.
 
-  The pinned code VIOLATES the property in three places; each has a kernel-checked witness below
-  (`*_unsound_pinned`, `propagate_*_unsound`), the full statement kept as `*_statement`, and the
-  strongest version that does hold as `*_partial` / the `c.fix* = true` theorems.
+  The code pinned upstream (`Cfg.pinned`) VIOLATES the property in `mul`, `div` and the
+  propagation functions; each has a kernel-checked witness below (`*_unsound_pinned`,
+  `propagate_*_unsound`).  `mul` and `div` have since been repaired in /repo (1280e04, 6b82196):
+  `Cfg.current = ⟨true, true, false⟩`, and `op_sound` is proved in full for it.  The propagation
+  defects are open: full statements kept as `*_statement`, what holds as `*_partial`.
 -/
 import DfModel.Mech.Interval
 import DfModel.Proofs.C23
 import DfModel.Proofs.C23Prop
 import DfModel.Proofs.C23Mul
+import DfModel.Proofs.C23Div
 namespace DfModel.Props.C23
 open DfModel.Mech.Interval DfModel.Proofs.C23
 
@@ -277,11 +280,8 @@ example : div Cfg.repaired i8 ⟨some (-10), some 10⟩ ⟨some (-5), some 0⟩ 
 example : div Cfg.repaired i8 ⟨some (-10), some 10⟩ ⟨none, some 0⟩ = ⟨none, none⟩ := by decide
 example : div Cfg.repaired i8 ⟨some (-10), some 0⟩ ⟨some 2, some 5⟩ = ⟨some (-5), some 0⟩ := by decide
 
-/-- what is proved for `div` today: a divisor interval strictly containing zero (⊇ [-1, 1]) gives
-    the unbounded interval, for either configuration.  Missing: the eight sign cases of
-    `div_helper_*` (monotonicity of truncating division in both arguments) for the repaired
-    configuration; false for the pinned one (`div_unsound_pinned`).  The implementation-level
-    oracle covers all of them exhaustively on 8-bit types. -/
+/-- the unbounded branch: a divisor interval strictly containing zero (⊇ [-1, 1]) gives the
+    unbounded interval, for either configuration -/
 theorem div_sound_partial {c : Cfg} {t : Ty} (hw : t.WF) {I J : Iv} {a b : Int}
     (hs : t.uns = false) (hz : contains J (zeroPoint t) = .TRUE)
     (hq : t.inRange (a.tdiv b)) : mem (a.tdiv b) (div c t I J) := by
@@ -291,22 +291,69 @@ theorem div_sound_partial {c : Cfg} {t : Ty} (hw : t.WF) {I J : Iv} {a b : Int}
 
 example : contains ⟨some (-3), none⟩ (zeroPoint i8) = .TRUE := by decide
 
-/-- **`op_sound`** as far as it holds for a configuration `c`: `+` and `-` always, `*` when the
-    repair is in or the two-zero helper is not reached. -/
+/-- **div is sound once the operand signs are classified against zero** (/repo 6b82196,
+    `fixDiv`): the unbounded branch, the two sign cases of `div_helper_lhs_zero_inclusive` and the
+    four of `div_helper_zero_exclusive` for signed types, the unsigned path, NULL endpoints,
+    endpoints equal to 0, and the `MIN / -1` overflow edge — by monotonicity of truncating division
+    on fixed-sign ranges (`Proofs/C23Div.lean`). -/
+theorem div_sound {c : Cfg} (hfix : c.fixDiv = true) {t : Ty} (hw : t.WF) {I J : Iv}
+    (hI : inTy t I) (hJ : inTy t J) {a b : Int} (ha : mem a I) (hb : mem b J)
+    (hra : t.inRange a) (hrb : t.inRange b) (hb0 : b ≠ 0) (hq : t.inRange (a.tdiv b)) :
+    mem (a.tdiv b) (div c t I J) := by
+  unfold div
+  simp only [hfix, if_true]
+  cases hu : t.uns with
+  | true =>
+    simp only [Bool.not_true, Bool.and_false, Bool.false_eq_true, if_false]
+    exact divZeroExclusive_sound hw hI hJ ha hb hra hrb hb0 hq (Or.inl hu) (Or.inl hu)
+  | false =>
+    simp only [Bool.not_false, Bool.and_true]
+    by_cases hcJ : contains J (zeroPoint t) = .TRUE
+    · simp only [hcJ, beq_self_eq_true, if_true]
+      exact mem_unbounded hw hq
+    · have e1 : (contains J (zeroPoint t) == BIv.TRUE) = false := by simpa using hcJ
+      simp only [e1, Bool.false_eq_true, if_false]
+      by_cases hcI : contains I (zeroPoint t) = .TRUE
+      · simp only [hcI, beq_self_eq_true, if_true]
+        exact divLhsZeroInclusive_sound hw hu hJ ha hb hrb hb0 hq hcI hcJ
+      · have e2 : (contains I (zeroPoint t) == BIv.TRUE) = false := by simpa using hcI
+        simp only [e2, Bool.false_eq_true, if_false]
+        exact divZeroExclusive_sound hw hI hJ ha hb hra hrb hb0 hq (Or.inr hcI) (Or.inr hcJ)
+
+theorem div_sound_current : div_sound_statement Cfg.current :=
+  fun _ hw _ _ hI hJ _ _ ha hb hra hrb hb0 hq => div_sound rfl hw hI hJ ha hb hra hrb hb0 hq
+
+-- non-vacuity: endpoint 0 in the divisor, zero-spanning dividend, overflow edge MIN / -1
+example : div Cfg.current i8 ⟨some (-10), some 10⟩ ⟨some (-5), some 0⟩ = ⟨none, none⟩ := by decide
+example : div Cfg.current i8 ⟨some (-10), some 10⟩ ⟨some 2, some 5⟩ = ⟨some (-5), some 5⟩ := by decide
+example : div Cfg.current i8 ⟨some (-128), some (-100)⟩ ⟨some (-2), some (-1)⟩ = ⟨some 50, none⟩ := by decide
+
+/-- **`op_sound`** for a configuration `c`: `+` and `-` always, `*` when the mul repair is in or
+    the two-zero helper is not reached, `/` when the div repair is in. -/
 theorem op_sound_partial {c : Cfg} {t : Ty} (hw : t.WF) {I J : Iv}
     (hI : inTy t I) (hJ : inTy t J) {a b : Int} (ha : mem a I) (hb : mem b J)
     (hra : t.inRange a) (hrb : t.inRange b) (op : AOp) {v : Int} (hv : op.exact a b = some v)
     (hq : t.inRange v)
     (hop : op = .add ∨ op = .sub ∨ (op = .mul ∧ (c.fixMul = true ∨
-      ¬ (containsValue I 0 = true ∧ containsValue J 0 = true ∧ t.uns = false)))) :
+      ¬ (containsValue I 0 = true ∧ containsValue J 0 = true ∧ t.uns = false))) ∨
+      (op = .div ∧ c.fixDiv = true)) :
     mem v (applyArith c t op I J) := by
-  rcases hop with h | h | ⟨h, hm⟩ <;> subst h <;> simp only [AOp.exact, Option.some.injEq] at hv <;>
-    subst hv <;> simp only [applyArith]
-  · exact add_sound hw hI hJ ha hb hq
-  · exact sub_sound hw ha hb hq
-  · rcases hm with hm | hm
+  rcases hop with h | h | ⟨h, hm⟩ | ⟨h, hd⟩
+  · subst h; simp only [AOp.exact, Option.some.injEq] at hv; subst hv
+    exact add_sound hw hI hJ ha hb hq
+  · subst h; simp only [AOp.exact, Option.some.injEq] at hv; subst hv
+    exact sub_sound hw ha hb hq
+  · subst h; simp only [AOp.exact, Option.some.injEq] at hv; subst hv
+    rcases hm with hm | hm
     · exact mul_sound hm hw hI hJ ha hb hra hrb hq
     · exact mul_sound_no_multi_zero hw hI hJ ha hb hra hrb hq hm
+  · subst h
+    simp only [AOp.exact] at hv
+    split at hv
+    · cases hv
+    · rename_i hb0
+      simp only [Option.some.injEq] at hv; subst hv
+      exact div_sound hd hw hI hJ ha hb hra hrb hb0 hq
 
 /-- the full `op_sound` -/
 def op_sound_statement (c : Cfg) : Prop :=
@@ -319,6 +366,18 @@ theorem op_unsound_pinned : ¬ op_sound_statement Cfg.pinned := by
   apply mul_unsound_pinned
   intro t hw I J hI hJ a b ha hb hra hrb hq
   exact h t hw I J hI hJ a b ha hb hra hrb .mul (a * b) rfl hq
+
+/-- **`op_sound` holds in full for the code /repo contains now** (`Cfg.current`: mul repair
+    1280e04 and div repair 6b82196): for every integer type, every operator `+ - * /`, all
+    intervals and all members, a representable result is in the computed interval. -/
+theorem op_sound : op_sound_statement Cfg.current := by
+  intro t hw I J hI hJ a b ha hb hra hrb op v hv hq
+  apply op_sound_partial hw hI hJ ha hb hra hrb op hv hq
+  cases op
+  · exact Or.inl rfl
+  · exact Or.inr (Or.inl rfl)
+  · exact Or.inr (Or.inr (Or.inl ⟨rfl, Or.inl rfl⟩))
+  · exact Or.inr (Or.inr (Or.inr ⟨rfl, rfl⟩))
 
 /-! ## comparisons and boolean connectives -/
 
